@@ -12,12 +12,12 @@ import (
 	"testing"
 
 	"github.com/cloudflare/circl/dh/sidh"
-	"github.com/cloudflare/circl/dh/sidh/internal/p434"
-	"github.com/cloudflare/circl/dh/sidh/internal/p503"
-	"github.com/cloudflare/circl/dh/sidh/internal/p751"
 	"github.com/cloudflare/circl/internal/verifc14"
 	"github.com/cloudflare/circl/internal/verifmc"
 )
+
+// read-out hooks, installed by the zz_verif_c14_be_p*_test.go files
+var c14ReadP434, c14ReadP503, c14ReadP751 func() string
 
 func c14Three(purego, bmi2, adxbmi2 bool) string {
 	switch {
@@ -96,12 +96,13 @@ func c14PubPatterns(size int) []verifc14.Named {
 
 func TestVerifC14_sidh(t *testing.T) {
 	c := verifc14.Start(t, "sidh")
-	pg := verifc14.PuregoTag
-	c.Backend("dh/sidh/internal/p434.HasADXandBMI2", c14Three(pg, false, p434.HasADXandBMI2), func(f verifc14.Features) string {
+	// the dispatch variables are exported names of internal packages: each is read by its own small file
+	// (zz_verif_c14_be_p434/p503/p751_test.go) through a hook, so that a rename costs the read-out only
+	c.BackendOptional("dh/sidh/internal/p434.HasADXandBMI2", c14ReadP434, func(f verifc14.Features) string {
 		return c14Three(f.Purego, false, f.BMI2 && f.ADX)
 	})
-	c.Backend("dh/sidh/internal/p503.{HasBMI2,HasADXandBMI2}", c14Three(pg, p503.HasBMI2, p503.HasADXandBMI2), verifc14.ThreeSel)
-	c.Backend("dh/sidh/internal/p751.{HasBMI2,HasADXandBMI2}", c14Three(pg, p751.HasBMI2, p751.HasADXandBMI2), verifc14.ThreeSel)
+	c.BackendOptional("dh/sidh/internal/p503.{HasBMI2,HasADXandBMI2}", c14ReadP503, verifc14.ThreeSel)
+	c.BackendOptional("dh/sidh/internal/p751.{HasBMI2,HasADXandBMI2}", c14ReadP751, verifc14.ThreeSel)
 	r := c.R
 	nseed := r.Pick(2, 5)
 	r.Set("key_seeds", nseed)
